@@ -87,7 +87,15 @@ type Lemma struct {
 	Axiom bool
 }
 
+type HeapViewDecl struct {
+	Recv string
+	E    Expr
+	Src  string
+}
+
 type PkgContracts struct {
+	HeapViews []*HeapViewDecl
+	SumFields []string // "Type.Field"
 	Pkg    string
 	File   string
 	Funcs  map[string]*FuncContract
@@ -95,7 +103,7 @@ type PkgContracts struct {
 	Lemmas []*Lemma
 }
 
-var kwRe = regexp.MustCompile(`^(requires\b|ensures\b|invariant\b|decreases\b|modifies\b|assert\b|loop \d|result is\b|inline$|trusted$|safety\b|param [A-Za-z_]|func\b|ghost\b|pred\b|axiom\b|lemma\b|nopanic$)`)
+var kwRe = regexp.MustCompile(`^(heapview\b|sumfield\b|requires\b|ensures\b|invariant\b|decreases\b|modifies\b|assert\b|loop \d|result is\b|inline$|trusted$|safety\b|param [A-Za-z_]|func\b|ghost\b|pred\b|axiom\b|lemma\b|nopanic$)`)
 var tagRe = regexp.MustCompile(`^\[([^\]]*)\]`)
 
 func loadContracts(dir, pkgPath string) (*PkgContracts, error) {
@@ -172,6 +180,23 @@ func loadContracts(dir, pkgPath string) (*PkgContracts, error) {
 				return nil, fail(err)
 			}
 			pc.Ghosts = append(pc.Ghosts, g)
+			cur, curLoop = nil, nil
+		case "heapview":
+			// heapview (*T) = EXPR over self
+			i := strings.Index(rest, "=")
+			if i < 0 || !strings.HasPrefix(rest, "(") {
+				return nil, fail(fmt.Errorf("heapview (T) = EXPR"))
+			}
+			recv := strings.TrimSpace(rest[:i])
+			recv = strings.TrimSuffix(strings.TrimPrefix(recv, "("), ")")
+			e, err := parseSpecExpr(rest[i+1:])
+			if err != nil {
+				return nil, fail(err)
+			}
+			pc.HeapViews = append(pc.HeapViews, &HeapViewDecl{Recv: strings.TrimSpace(recv), E: e, Src: rest})
+			cur, curLoop = nil, nil
+		case "sumfield":
+			pc.SumFields = append(pc.SumFields, strings.TrimSpace(rest))
 			cur, curLoop = nil, nil
 		case "axiom", "lemma":
 			i := strings.Index(rest, ":")
